@@ -30,6 +30,7 @@
     against the one for its [|] variant in real bash). *)
 From CG Require Import Base.Prelude Model.Ast Model.Check Model.Dfa Spec.Rx Spec.Meaning Spec.TokAut Spec.Ambig
      Proofs.MeaningFacts Proofs.MeaningLevels Proofs.CheckBar Proofs.AmbigFacts Proofs.AmbigComplete.
+From CG Require Spec.TwoReadings Proofs.TwoReadingsFacts.
 
 Definition known_C09 (c : cdfa) : bool :=
   match Ambig.find c with Some _ => true | None => false end.
@@ -190,3 +191,15 @@ Example ex_C09_inhabited :
   /\ known_C09 ex_clean = false.
 Proof. vm_compute. repeat split; reflexivity. Qed.
 Print Assumptions ex_C09_inhabited.
+
+(** The per-line classifier of lib/vf/checks/c09.py, Part 2 ([Spec.TwoReadings.two_readings]: the
+    command line meets a point where a typed word has two readings) contains the lines on which
+    C01's judgement is withheld ([Meaning.ambiguous_run]). *)
+Theorem C09_two_readings_covers_ambiguous_run :
+  forall en ws s, Meaning.ambiguous_run en s ws = true ->
+                  TwoReadings.two_readings en s ws = true.
+Proof. exact TwoReadingsFacts.ambiguous_run_two_readings. Qed.
+Check C09_two_readings_covers_ambiguous_run :
+  forall en ws s, Meaning.ambiguous_run en s ws = true ->
+                  TwoReadings.two_readings en s ws = true.
+Print Assumptions C09_two_readings_covers_ambiguous_run.
